@@ -497,3 +497,19 @@ def ladder_step(st, v):
 
 def ladder_state(kind, values, k):
     return fold(ladder_step, (kind, False), values, k)
+
+
+def written_values(key, value, n):
+    """The values one assignment writes (int key: the value; slice key: the sequence, or the
+    scalar repeated over the slice)."""
+    if isinstance(key, int):
+        return [value]
+    if isinstance(value, list):
+        return value
+    if isinstance(key, list):
+        return [value] * len(key)
+    return [value] * len(range(n)[key])
+
+
+def setitem_kind_state(dtype, values):
+    return ladder_state(dtype.kind, values, len(values))
